@@ -26,7 +26,9 @@ CASE_TIMEOUT = 300.0
 
 FINAL = ('success', 'failed', 'cancelled')
 OPS = ['queued', 'running', 'set_result', 'set_exc', 'set_exc_override', 'cancel', 'cancel_fatal', 'announce', 'add_cb', 'add_cleanup',
-       'fut_set_exc', 'fut_cancel', 'cancel_badexc', 'set_result_none', 'add_cb_raising', 'add_cleanup_raising']
+       'fut_set_exc', 'fut_cancel', 'cancel_badexc', 'set_result_none', 'add_cb_raising', 'add_cleanup_raising', 'set_exc_base']
+# ('set_exc_base': set_exception with a BaseException that is not an Exception - what the submission step records when it is hit by a
+# SystemExit / KeyboardInterrupt / framework class: a failure like any other, never an override)
 # ('add_cb_raising' / 'add_cleanup_raising': a done callback / failure cleanup that RAISES when it is run - it counts as run, and has no
 # other effect on the transfer's state)
 # 'obs' (threads only): what a user sees - 'pending' while done has not been announced, afterwards what result() gives
@@ -81,7 +83,7 @@ class Ref:
             self.exc = None
             self.result = ('R', step) if op == 'set_result' else None
             self.status = 'success'
-        elif op == 'set_exc':
+        elif op in ('set_exc', 'set_exc_base'):
             if not self.done():
                 self.exc = ('E', step)
                 self.status = 'failed'
@@ -162,6 +164,11 @@ class Real:
                 c.set_result(('R', step))
             elif op == 'set_result_none':
                 c.set_result(None)
+            elif op == 'set_exc_base':
+                e = (SystemExit if step % 2 else KeyboardInterrupt)(f'E{step}')
+                self.sym[id(e)] = ('E', step)
+                self._keep = getattr(self, '_keep', []) + [e]
+                c.set_exception(e)
             elif op in ('set_exc', 'set_exc_override'):
                 e = ValueError(f'E{step}')
                 self.sym[id(e)] = ('E', step)
